@@ -1290,10 +1290,10 @@ class Driver(object, metaclass=DriverMetaclass):
 
             con_dict[name] = con_vec[name].copy()
 
-        # If we computed violations, those were unscaled.
-        # Now scale them.
-        if driver_scaling and viol:
-            self._autoscaler.apply_constraint_scaling(con_vec)
+            # Violations are computed in model units.  A violation is a distance, so in
+            # driver-scaled space it is multiplied by the scaler only (no adder).
+            if viol and driver_scaling and meta['total_scaler'] is not None:
+                con_dict[name] *= meta['total_scaler']
 
         return con_dict
 
